@@ -34,7 +34,9 @@ def small_uint():
 
 
 def small_double():
-    return st.one_of(st.sampled_from([0.0, 1.0, -1.0, 0.5, 2.0, -0.0, 1e10, 3.25]), values.finite_double())
+    # whole-valued doubles at and beyond the integer ranges are here on purpose: they are where a double meets an int (indexes, conversions, comparisons)
+    return st.one_of(st.sampled_from([0.0, 1.0, -1.0, 0.5, 2.0, -0.0, 1e10, 3.25]), values.finite_double(),
+                     st.sampled_from([2.0**63, -(2.0**63), 2.0**64, 9223372036854774784.0, 1e19, -1e19, 1e300, -1e300, 4294967296.0, 2.0**53 + 2, 1.7976931348623157e308, 5e-324]))
 
 
 def small_string():
@@ -479,6 +481,11 @@ def any_expr(draw, depth: int, names: List[str], macro_vars: Tuple[str, ...] = (
     if c == "cond":
         return ("cond", sub(), sub(), sub())
     if c == "index":
+        if draw(st.integers(0, 2)) == 0:
+            # a container indexed by a boundary scalar of any kind
+            kind = draw(st.sampled_from(["int", "uint", "double", "double", "string", "bool", "null", "bytes"]))
+            recv = draw(st.sampled_from([("list", (("lit", "int", 7), ("lit", "int", 8))), ("map", ((("lit", "int", 0), ("lit", "int", 1)),)), ("lit", "string", "ab")])) if draw(st.booleans()) else sub()
+            return ("index", recv, ("lit", kind, draw(payload_of(kind))))
         return ("index", sub(), sub())
     if c == "select":
         return ("select", sub(), draw(st.sampled_from(FIELD_NAMES + ["size", "x"])))
